@@ -40,15 +40,22 @@ def log(*a):
 
 
 def sh(cmd, timeout=None, cwd=None, env=None, input=None):
-    """Run a command (list or shell string); returns (rc, stdout+stderr)."""
+    """Run a command (list or shell string) in its own process group; on timeout the whole group is killed
+    (a timed-out make must not leave a coqc running).  Returns (rc, stdout+stderr)."""
+    import signal
     shell = isinstance(cmd, str)
+    p = subprocess.Popen(cmd, shell=shell, cwd=cwd, env=env, stdin=subprocess.PIPE if input is not None else None,
+                         stdout=subprocess.PIPE, stderr=subprocess.STDOUT, text=True, errors="replace",
+                         start_new_session=True)
     try:
-        p = subprocess.run(cmd, shell=shell, cwd=cwd, env=env, input=input,
-                           stdout=subprocess.PIPE, stderr=subprocess.STDOUT,
-                           timeout=timeout, text=True, errors="replace")
-        return p.returncode, p.stdout
-    except subprocess.TimeoutExpired as e:
-        out = e.stdout if isinstance(e.stdout, str) else (e.stdout or b"").decode("utf8", "replace")
+        out, _ = p.communicate(input=input, timeout=timeout)
+        return p.returncode, out
+    except subprocess.TimeoutExpired:
+        try:
+            os.killpg(p.pid, signal.SIGKILL)
+        except OSError:
+            pass
+        out, _ = p.communicate()
         return 124, (out or "") + "\n[timeout after %ss]\n" % timeout
 
 
@@ -291,7 +298,7 @@ def coq_make(targets, timeout=3000, keep_going=True):
     Full .vo build.  Returns (ok, log)."""
     with CoqLock():
         coq_prepare()
-        cmd = ["make", "-j%d" % NPROC] + (["-k"] if keep_going else []) + list(targets)
+        cmd = ["make", "-j%d" % NPROC, "COQC=timeout -k 5 1500 prlimit --as=16000000000 coqc"] + (["-k"] if keep_going else []) + list(targets)
         env = dict(os.environ, TIMED="", COQFLAGS="")
         rc, o = sh(cmd, cwd=COQ, timeout=timeout)
         return rc == 0, o
